@@ -3,7 +3,7 @@
 The shared rules below were each written after a seeded change in one property, but what they state is a necessary
 condition wherever the same shape of code occurs: a view of stored data updated in place, an ``out=`` array that is
 also an input read later, an element used as the operand of an update that runs over it, an observer that writes
-into what it shows, an update of an array read back from an object that may have kept the caller's argument, an array without contents that reaches an accumulating kernel, a conditional copy of the caller's (or another object's) array changed in place, a value that slips into another optional parameter's position, a two-index array moved through an index map in two directions at once, a per-call result bound to a buffer the object keeps, a running offset that a 'continue' can skip, a callee left at its VASP default although the calculator is known, (the fresh-write rule for result arrays is not
+into what it shows, an update of an array read back from an object that may have kept the caller's argument, an array without contents that reaches an accumulating kernel, a conditional copy of the caller's (or another object's) array changed in place, a value that slips into another optional parameter's position, a two-index array moved through an index map in two directions at once, a per-call result bound to a buffer the object keeps, a running offset that a 'continue' can skip, a callee left at its VASP default although the calculator is known, a float result buffer typed by the caller's array, (the fresh-write rule for result arrays is not
 among them: stateful algorithm classes such as the Smith-normal-form reducer update their own matrices in place by
 design; it stays with the classes it was tuned for).  After a property's own rules (and before delegation) they
 run over the Python files the property is anchored in, under the ids ``R<XX>y.<rule>``; each keeps itself alive with
@@ -15,7 +15,7 @@ from __future__ import annotations
 import os
 
 from engine import core
-from rules import delegation, shared_alias, shared_argname, shared_ctxparam, shared_offset, shared_outbuf, shared_permcov, shared_ctoralias, shared_lazycache, shared_zeroinit, shared_trunc, shared_outalias, shared_readonly, shared_selfalias, shared_viewupdate
+from rules import delegation, shared_alias, shared_argname, shared_ctxparam, shared_likedtype, shared_offset, shared_outbuf, shared_permcov, shared_ctoralias, shared_lazycache, shared_zeroinit, shared_trunc, shared_outalias, shared_readonly, shared_selfalias, shared_viewupdate
 
 
 def run(rep: core.Report, pid: str) -> None:
@@ -39,6 +39,7 @@ def run(rep: core.Report, pid: str) -> None:
     shared_outbuf.run(rep, f"R{xx}y.outbuf", files)
     shared_offset.run(rep, f"R{xx}y.offset", files)
     shared_ctxparam.run(rep, f"R{xx}y.ctxparam", files)
+    shared_likedtype.run(rep, f"R{xx}y.likedtype", files)
     zfiles = [f for f in files if "phonoc." in core.read(f) or "np.empty" in core.read(f) or "np.ndarray(" in core.read(f)]
     if zfiles and pid != "C13":  # C13 runs it as R13i over the whole package
         shared_zeroinit.run(rep, f"R{xx}y.zeroinit", zfiles)
